@@ -1175,3 +1175,101 @@ def run(ctx):
     _run_main3(ctx)
     extras3(ctx)
     ctx.flush()
+
+
+# ---- extras4 (hx_r9b, round 9): targets that LOOK LIKE the non-zero Fourier grid (same count, entry by entry close) without being it --------------
+# A grid exported with 6 significant digits and read back, recomputed from a rounded time step, perturbed by 1e-6 relative, with one entry moved,
+# shifted by one bin, reversed: the window must be centred on the GIVEN targets. Spiky spectra (the effect of a slightly displaced centre is of
+# the order of the displacement times the band). Judged by array_case: window formula vs the scalar-math definition, Float twin, weighted mean,
+# matrix form == direct form, deprecated argument order; plus the object level (Signal.gen_smooth_fa_spectrum(smooth_fa_freqs=...)).
+def _x4_spiky(rng, n, cplx):
+    a = 1.0 + 0.2 * np.sin(np.arange(n) / rng.choice([3.0, 7.0]))
+    for _ in range(rng.randint(2, 5)):
+        a[rng.randrange(1, n)] = rng.choice([30.0, 55.0, 80.0, 120.0])
+    return a * np.exp(1j * np.arange(n)) if cplx else a
+
+
+def _x4_near_grid(rng, fs, kind):
+    fs = np.asarray(fs, dtype=float)
+    m = len(fs)
+    if kind == 'rel-noise':                 # every entry moved by up to rel (inside / at / outside the usual allclose tolerances)
+        rel = rng.choice([1e-6, 3e-6, 1e-7, 9e-6, 1e-4, 1e-3])
+        return fs * (1 + rel * np.array([rng.uniform(-1, 1) for _ in range(m)]))
+    if kind == 'scaled':                    # the grid of a slightly rounded time step
+        return fs * (1 + rng.choice([1e-6, -4e-6, 8e-6, -1e-7, 5e-5]))
+    if kind in ('6-digits', '5-digits', '7-digits'):
+        out = np.array([float('%.*g' % (int(kind[0]), x)) for x in fs])
+        return out if np.any(out != fs) else fs * (1 + 2e-6)
+    if kind == 'one-moved':                 # one entry moved (a little / a lot), the others bitwise the grid
+        out = fs.copy()
+        out[rng.randrange(m)] *= 1 + rng.choice([5e-6, -5e-6, 2e-6, 1e-2, 0.3])
+        return out
+    if kind == 'abs-noise':                 # absolute 1e-8 .. 1e-9 (the atol of allclose) on a low-frequency grid
+        return fs + rng.choice([1e-8, 5e-9, 1e-7]) * np.array([rng.choice([-1.0, 1.0]) for _ in range(m)])
+    if kind == 'shifted':                   # the grid shifted by one bin: same count, entries of the grid, not the same positions
+        return np.concatenate([fs[1:], [2 * fs[-1] - fs[-2]]])
+    return fs[::-1].copy()                  # 'reversed'
+
+
+X4_KINDS = ['rel-noise', '6-digits', 'scaled', 'one-moved', 'abs-noise', 'rel-noise', '5-digits', 'shifted', 'reversed', '7-digits', 'one-moved', 'scaled']
+
+
+def extras4(ctx):
+    import eqsig
+    from eqsig.fns import frequency as fq
+    rng = ctx.rng
+    reps = len(X4_KINDS) if ctx.tier == 'quick' else 6 * len(X4_KINDS)
+    for it in range(reps):
+        kind = X4_KINDS[it % len(X4_KINDS)]
+        n = rng.choice([12, 24, 40, 65]) if ctx.tier == 'quick' or it % 5 else rng.choice([150, 301])
+        zero_bin = it % 4 != 3
+        df = rng.choice([1.0 / (2048 * 0.007), 0.048828125, 1.0 / (64 * 0.01), 0.3, 1.0 / 30.0]) if kind != 'abs-noise' else rng.choice([1e-3, 2.5e-4])
+        fr_ = np.arange(n) * df if zero_bin else (np.arange(n) + 1) * df
+        fs = fr_[1:] if zero_bin else fr_
+        A = _x4_spiky(rng, n, cplx=it % 3 == 1)
+        sm = _x4_near_grid(rng, fs, kind)
+        band = rng.choice([40, 100, 20, 40])
+        array_case(ctx, 'near-grid/' + kind, fr_, A, sm, band, small=False)
+        if it % 6 == 5:
+            ctx.flush()
+    ctx.flush()
+    # object level: the targets are the object's own non-zero Fourier frequencies after a round trip through text / a rounded time step
+    for it in range(4 if ctx.tier == 'quick' else 24):
+        kind = ['6-digits', 'rel-noise', 'scaled', 'one-moved'][it % 4]
+        npts = rng.choice([30, 50, 64, 100])
+        dt = rng.choice([0.007, 0.01, 0.02, 0.005])
+        v = np.asarray(gen.spike_record(rng, npts), dtype=float) + 0.05 * np.asarray(gen.noise_record(rng, npts), dtype=float)
+        cls = eqsig.AccSignal if it % 2 else eqsig.Signal
+        o = cls(v, dt)
+        fa_f, fa_s = np.array(o.fa_frequencies), np.array(o.fa_spectrum)
+        sm = _x4_near_grid(rng, fa_f[1:], kind)
+        band = rng.choice([40, 100])
+        inputs = {'values': v, 'dt': dt, 'smooth_fa_frequencies': sm, 'band': band, 'cls': cls.__name__, 'kind': 'near-grid/' + kind}
+        ctx.hist('object/near-grid/' + kind)
+        ctx.count_case(('x4-object', v.tobytes(), dt, sm.tobytes(), band), True)
+        want = np.abs(fa_s[1:]) @ _x2_ko_cols(band, fa_f[1:], sm)
+        tol = 1e-10 * float(np.max(np.abs(fa_s[1:])))
+        for how in ('gen(smooth_fa_freqs=)', 'constructor', 'setter'):
+            o = cls(v, dt, smooth_fa_freqs=sm.copy()) if how == 'constructor' else cls(v, dt)
+            if how == 'gen(smooth_fa_freqs=)':
+                r = call_impl(o.gen_smooth_fa_spectrum, smooth_fa_freqs=sm.copy(), band=band)
+            else:
+                if how == 'setter':
+                    o.smooth_fa_frequencies = sm.copy()
+                r = call_impl(o.gen_smooth_fa_spectrum, band=band)
+            got = np.asarray(o.smooth_fa_spectrum, dtype=float) if r[0] == 'ok' else None
+            ctx.oracle('C07.b/c object level: smoothed amplitude at each GIVEN target is the Konno-Ohmachi weighted mean of |fa_spectrum| centred on '
+                       'that target (targets close to the Fourier grid, %s)' % how,
+                       got is not None and got.shape == want.shape and bool(np.all(np.abs(got - want) <= tol)), {**inputs, 'how': how},
+                       detail={'status': r[0], 'max_dev': None if got is None or got.shape != want.shape else float(np.max(np.abs(got - want))), 'tol': tol})
+            ctx.oracle('C07 object level: the targets reported are the targets given', r[0] == 'ok' and np.array_equal(np.asarray(o.smooth_fa_frequencies), sm),
+                       {**inputs, 'how': how})
+
+
+_run_main4 = run
+
+
+def run(ctx):
+    _run_main4(ctx)
+    extras4(ctx)
+    ctx.flush()
